@@ -29,7 +29,7 @@ func init() {
 			"go.lsp.dev/jsonrpc2 conn, stream, framing, handlers":              "real code, plus two seams in a scratch copy of the module: a yield call before conn.writeMu.Lock(), and a wrapper around each call's cancellable context whose Done() is a yield point",
 			"zap logger":                                                       "real, sink redirected to /dev/null",
 			"stdin/stdout (cmd/textmapper/ls.go:transport)":                    "stub: simulated duplex byte pipe (fragmentation, EOF, EPIPE, torn frames from the tape); os.Stdin/os.Stdout selectors rewritten in an overlay copy of ls.go",
-			"LSP client":                                                       "stub: script generated from the tape; reference model = sequential execution in send order",
+			"LSP client":                                                       "stub: script generated from the tape; honours the synchronisation kind of the server's real initialize result (read once per process; ranged edits when incremental); does not answer server-to-client requests (announces no such capability); reference model = sequential execution in send order",
 			"goroutine scheduling":                                             "Go runtime inside a testing/synctest bubble; which parked writer proceeds and when client bytes arrive is decided by the tape; every step runs to quiescence (synctest.Wait)",
 			"wall clock":                                                       "fake (synctest)",
 		},
